@@ -21,6 +21,8 @@ func runC07(p *Program, r *Report) {
 	ruleR073(p, r)
 	r.Rule("R07.4", "E2+E4", 8, "root confinement: every os/ioutil call of the directory back end that takes a path gets one derived from osPath (or a constant file name joined to the root), and osPath's success return is control-dependent on an effective containment predicate (filepath.Rel to the root followed by a '..' test, filepath.IsLocal, or a HasPrefix test against the root); comparing a Join result with its own Clean is vacuous")
 	ruleR074(p, r)
+	r.Rule("R07.7", "E2", 1, "imported key material is re-encrypted before it is stored: the import copy of a key (copyKey) resets the key data and refills it through the encrypting constructor on every path that hands a key back - no early return carries the bundle's decrypted data into the ring")
+	ruleCopyKey(p, r, "R07.7")
 	r.Rule("R07.6", "E2", 2, "signatures are compared whole: every constant-time comparison that authenticates stored data compares the complete stored tag with the complete computed tag (no operand is a re-slice whose bounds are computed at run time), the verifier answers 'valid' only on the equal edge, and the computed tag covers the data and the context it was given")
 	ruleWholeTagCompare(p, r, "R07.6", []string{"keystore/v2/keystore/crypto", "keystore/v2/keystore/signature"}, 1)
 	ruleR076(p, r)
@@ -481,6 +483,7 @@ func ruleR074(p *Program, r *Report) {
 	}
 	effective := ""
 	vacuous := false
+	testedOther := false
 	for _, cs := range callsIn(fn) {
 		if cs.Callee == nil {
 			continue
@@ -514,6 +517,14 @@ func ruleR074(p *Program, r *Report) {
 			}
 			if usesRoot && dotdot {
 				effective = "filepath.Rel(root, full) + '..' test"
+				// what is handed out must be the very path that was tested: anything applied to it afterwards
+				// (separator conversion, another Join) can change where it points
+				tested := cs.Instr.Common().Args[1]
+				for _, ret := range returnsOf(fn) {
+					if isNilConst(retValue(ret, 1)) && retValue(ret, 0) != tested {
+						testedOther = true
+					}
+				}
 			}
 		case "path/filepath.IsLocal":
 			effective = "filepath.IsLocal"
@@ -540,7 +551,10 @@ func ruleR074(p *Program, r *Report) {
 			errReturns++
 		}
 	}
-	r.Check(effective != "" && errReturns > 0, "R07.4", fnName(fn), "containment predicate", p.Pos(fn.Pos()), effective, func() string {
+	r.Check(effective != "" && errReturns > 0 && !testedOther, "R07.4", fnName(fn), "containment predicate", p.Pos(fn.Pos()), effective, func() string {
+		if testedOther {
+			return "the path returned on success is not the path whose containment was tested (it is transformed again after the test): a component that only becomes '..' through that transformation leaves the keystore root"
+		}
 		if vacuous {
 			return "the only escape check compares a filepath.Join result with its own Clean, which can never differ: a key path with '..' components leaves the keystore root"
 		}
@@ -623,6 +637,8 @@ func init() {
 	mut("C07", "v2: symmetric key stored in the ring unencrypted", "keystore/v2/keystore/filesystem/key.go", "		newData.SymmetricKey = encryptedSymmetricKey", "		_ = encryptedSymmetricKey\n		newData.SymmetricKey = data.SymmetricKey", "R07.1", "addKeyData")
 	mut("C07", "verifyKeyRing parses the raw input", "keystore/v2/keystore/filesystem/keyStore.go", "	ringData, err := asn1.UnmarshalKeyRing(verified.Payload.Data.FullBytes)", "	ringData, err := asn1.UnmarshalKeyRing(data[len(data)-len(verified.Payload.Data.FullBytes):])", "R07.3", "parsed bytes")
 	mut("C07", "verifyKeyRing swallows the unmarshal error (original defect)", "keystore/v2/keystore/filesystem/keyStore.go", "		log.WithError(err).Debug(\"failed to unmarshal key ring data\")\n		return nil, nil, err", "		log.WithError(err).Debug(\"failed to unmarshal key ring data\")", "R07.3", "UnmarshalKeyRing")
+	mut("C07", "osPath transforms the path again after the containment test", "keystore/v2/keystore/filesystem/backend/filesystem.go", "	return fullPath, nil\n}\n\n// Lock acquires", "	return filepath.Join(b.root, pathSeparators.Replace(rel)), nil\n}\n\n// Lock acquires", "R07.4", "containment")
+	mut("C07", "destroyed keys are imported with their decrypted data", "keystore/v2/keystore/filesystem/key.go", "	key := *other\n	// Other key's data is currently in plaintext. We need to encrypt it.", "	key := *other\n	if api.KeyState(other.State) == api.KeyDestroyed {\n		return &key, nil\n	}\n	// Other key's data is currently in plaintext. We need to encrypt it.", "R07.7", "copy starts empty")
 	mut("C07", "osPath check vacuous again (original defect)", "keystore/v2/keystore/filesystem/backend/filesystem.go", "	rel, err := filepath.Rel(b.root, fullPath)\n	if err != nil || rel == \"..\" || strings.HasPrefix(rel, \"..\"+string(filepath.Separator)) {", "	if fullPath != filepath.Clean(fullPath) {", "R07.4", "containment")
 	mut("C07", "Get opens the key path directly", "keystore/v2/keystore/filesystem/backend/filesystem.go", "	data, err := ioutil.ReadFile(fullPath)", "	data, err := ioutil.ReadFile(filepath.Join(b.root, path))", "R07.4", "ReadFile")
 	mut("C07", "key file created world-readable", "keystore/v2/keystore/filesystem/backend/filesystem.go", "	keyFilePerm = os.FileMode(0600)", "	keyFilePerm = os.FileMode(0640)", "R07.5", "mode")
